@@ -46,6 +46,7 @@ func init() { register("C11", checkC11) }
 type errClass struct {
 	Name     string
 	Reported bool   // one of the property's reported-error classes
+	Listed   bool   // named in the property text itself ("input errors … are reported as an error of that run"): a line of this class that runs without error violates the property
 	Observe  bool   // outside the property's class list: the outcome is recorded in the evidence, never a violation
 	Expect   string // substring expected in the run's error message
 	Build    func(r *vh.Rng, name string) (*proj.Project, []string, func(root string) error)
@@ -70,7 +71,7 @@ func editFile(path string, f func(s string) string) error {
 
 func c11Classes() []errClass {
 	return []errClass{
-		{Name: "unknown-soil-id", Reported: true, Expect: "not found", Build: func(r *vh.Rng, name string) (*proj.Project, []string, func(string) error) {
+		{Name: "unknown-soil-id", Reported: true, Listed: true, Expect: "not found", Build: func(r *vh.Rng, name string) (*proj.Project, []string, func(string) error) {
 			p := genWithCrop(r, name)
 			if r.Chance(0.5) {
 				return p, []string{"soilId=S77"}, nil // soil id given on the batch line
@@ -81,7 +82,7 @@ func c11Classes() []errClass {
 				})
 			}
 		}},
-		{Name: "unknown-field-id", Reported: true, Expect: "not found", Build: func(r *vh.Rng, name string) (*proj.Project, []string, func(string) error) {
+		{Name: "unknown-field-id", Reported: true, Listed: true, Expect: "not found", Build: func(r *vh.Rng, name string) (*proj.Project, []string, func(string) error) {
 			p := genWithCrop(r, name)
 			return p, nil, func(root string) error {
 				return editFile(filepath.Join(root, "project", name, "poly_"+name+".txt"), func(s string) string {
@@ -89,32 +90,32 @@ func c11Classes() []errClass {
 				})
 			}
 		}},
-		{Name: "texture-not-in-tables", Reported: true, Expect: "not listed", Build: func(r *vh.Rng, name string) (*proj.Project, []string, func(string) error) {
+		{Name: "texture-not-in-tables", Reported: true, Listed: true, Expect: "not listed", Build: func(r *vh.Rng, name string) (*proj.Project, []string, func(string) error) {
 			p := genWithCrop(r, name)
 			p.Soil[r.Intn(len(p.Soil))].Texture = "XQ7"
 			return p, nil, nil
 		}},
-		{Name: "texture-fractions-inconsistent", Reported: true, Expect: "does not sum up", Build: func(r *vh.Rng, name string) (*proj.Project, []string, func(string) error) {
+		{Name: "texture-fractions-inconsistent", Reported: true, Listed: true, Expect: "does not sum up", Build: func(r *vh.Rng, name string) (*proj.Project, []string, func(string) error) {
 			p := genWithCrop(r, name)
 			p.Cfg["PTF"] = fmt.Sprint(r.Range(1, 4))
 			h := &p.Soil[r.Intn(len(p.Soil))]
 			h.Sand, h.Silt, h.Clay = 50, 40, 40
 			return p, nil, nil
 		}},
-		{Name: "weather-gap", Reported: true, Expect: "missing days", Build: func(r *vh.Rng, name string) (*proj.Project, []string, func(string) error) {
+		{Name: "weather-gap", Reported: true, Listed: true, Expect: "missing days", Build: func(r *vh.Rng, name string) (*proj.Project, []string, func(string) error) {
 			p := genWithCrop(r, name)
 			// drop one day in the second simulated year
 			k := 365 + r.Range(40, 300)
 			p.Weather = append(append([]proj.WDay{}, p.Weather[:k]...), p.Weather[k+1:]...)
 			return p, nil, nil
 		}},
-		{Name: "tillage-between-sowing-and-harvest", Reported: true, Expect: "tillage date", Build: func(r *vh.Rng, name string) (*proj.Project, []string, func(string) error) {
+		{Name: "tillage-between-sowing-and-harvest", Reported: true, Listed: true, Expect: "tillage date", Build: func(r *vh.Rng, name string) (*proj.Project, []string, func(string) error) {
 			p := genWithCrop(r, name)
 			ro := p.Rot[1]
 			p.Til = []proj.TilEv{{Depth: 20, Kind: 1, Date: proj.FromZ(r.Range(ro.Sow.Z()+3, ro.Harvest.Z()-3))}}
 			return p, nil, nil
 		}},
-		{Name: "start-year-mismatch", Reported: true, Expect: "start year", Build: func(r *vh.Rng, name string) (*proj.Project, []string, func(string) error) {
+		{Name: "start-year-mismatch", Reported: true, Listed: true, Expect: "start year", Build: func(r *vh.Rng, name string) (*proj.Project, []string, func(string) error) {
 			p := genWithCrop(r, name)
 			// weather begins one year before the true start so that only the year check can fail
 			return p, []string{fmt.Sprintf("StartYear=%d", p.Start().Y+1)}, nil
@@ -163,7 +164,77 @@ func c11Classes() []errClass {
 				})
 			}
 		}},
+		// ---- "gap in the weather data" in the one-file-per-year layout (WeatherFileFormat 0, WetterK): the file of the
+		// SECOND simulated year begins on 1 February, lacks one day in its middle, or does not exist. The complete
+		// series in the same layout is a valid line of the mixed batches.
+		{Name: "weather-gap-yearfile-start", Reported: true, Listed: true, Expect: "missing days", Build: func(r *vh.Rng, name string) (*proj.Project, []string, func(string) error) {
+			p := yearFilesProject(r, name)
+			return p, nil, func(root string) error {
+				return editYearFile(root, p, p.Start().Y+1, func(data []string) []string { return data[31:] })
+			}
+		}},
+		{Name: "weather-gap-yearfile-inside", Reported: true, Listed: true, Expect: "missing days", Build: func(r *vh.Rng, name string) (*proj.Project, []string, func(string) error) {
+			p := yearFilesProject(r, name)
+			k := r.Range(1, 360)
+			return p, nil, func(root string) error {
+				return editYearFile(root, p, p.Start().Y+1, func(data []string) []string { return append(append([]string{}, data[:k]...), data[k+1:]...) })
+			}
+		}},
+		{Name: "weather-yearfile-missing", Reported: true, Listed: true, Expect: "failed to load file", Build: func(r *vh.Rng, name string) (*proj.Project, []string, func(string) error) {
+			p := yearFilesProject(r, name)
+			return p, nil, func(root string) error {
+				return editYearFile(root, p, p.Start().Y+1, func(data []string) []string { return nil })
+			}
+		}},
+		{Name: "weather-yearfiles-complete", Reported: false, Expect: "", Build: func(r *vh.Rng, name string) (*proj.Project, []string, func(string) error) {
+			p := yearFilesProject(r, name)
+			return p, nil, func(root string) error { return editYearFile(root, p, p.Start().Y+1, nil) }
+		}},
 	}
+}
+
+// yearFilesProject: a project that reads its weather from one file per year (WeatherFileFormat 0) in a folder of
+// its own (weather/gy_<name>, written by editYearFile; the shared folder weather/gen keeps the CSV of Project.Write).
+func yearFilesProject(r *vh.Rng, name string) *proj.Project {
+	p := genWithCrop(r, name)
+	p.Cfg["WeatherFileFormat"] = "0"
+	p.Cfg["WeatherFile"] = "\"%s.\""
+	p.Cfg["WeatherNumHeader"] = "2"
+	p.Cfg["WeatherFolder"] = "gy_" + name
+	return p
+}
+
+// editYearFile writes the year files of the project and rewrites the data lines of one year (nil result: the file
+// is removed; nil edit: all files stay complete).
+func editYearFile(root string, p *proj.Project, year int, edit func(data []string) []string) error {
+	folder := "gy_" + p.Name
+	if err := p.WriteWeatherLayoutTo(root, folder, 0); err != nil {
+		return err
+	}
+	if edit == nil {
+		return nil
+	}
+	code := ""
+	for _, a := range p.BatchArgs() {
+		if strings.HasPrefix(a, "fcode=") {
+			code = strings.TrimPrefix(a, "fcode=")
+		}
+	}
+	path := filepath.Join(root, "weather", folder, code+"."+proj.YearExt(year))
+	b, err := os.ReadFile(path)
+	if err != nil {
+		return err
+	}
+	lines := strings.Split(strings.TrimRight(string(b), "\n"), "\n")
+	const nHeader = 2 // WeatherNumHeader of yearFilesProject
+	if len(lines) < nHeader+360 {
+		return fmt.Errorf("year file %s has only %d lines", path, len(lines))
+	}
+	data := edit(lines[nHeader:])
+	if data == nil {
+		return os.Remove(path)
+	}
+	return os.WriteFile(path, []byte(strings.Join(append(append([]string{}, lines[:nHeader]...), data...), "\n")+"\n"), 0o644)
 }
 
 var idPrefixRe = regexp.MustCompile(`\[\d+\] ?`)
@@ -201,7 +272,8 @@ func checkC11(c *vh.Ctx) {
 			raceBin = ""
 		}
 	}
-	c.Res.Rule = "for every error class × every position of the failing line among the valid lines × concurrency 1..8 (plus -lines windows and two failing lines per batch): process ends normally within the wall-time limit, files of every other line byte-identical (sha256) to its solo run, summary ids == failing ids, printed count == number of summary lines, no foreign file, inputs unchanged; every failing class alone: terminates and is listed; sessions mixing parameter folders / per-project tables / absent optional files in both orders at concurrency 1 and 2 and random mixes: each line succeeds or is reported exactly as alone, files == solo; fertiliser prediction at latitudes -60..70 in a subprocess with timeout; evaluations = (batch, line) pairs + latitude probes + correspondence cases; distinct = (class, position, concurrency) + latitudes"
+	c.Res.Rule = "for every error class × every position of the failing line among the valid lines × concurrency 1..8 (plus -lines windows in the forms a-b, N and a-end and two failing lines per batch; batch files and command lines in drawn shapes: separators, line ends, empty lines, option order, -workingdir given or implied): process ends normally within the wall-time limit, files of every other line byte-identical (sha256) to its solo run, summary ids == failing ids, printed count == number of summary lines, no foreign file, inputs unchanged; every failing class alone: terminates and is listed; sessions mixing parameter folders / per-project tables / absent optional files in both orders at concurrency 1 and 2 and random mixes: each line succeeds or is reported exactly as alone, files == solo; fertiliser prediction at latitudes -60..70 in a subprocess with timeout; evaluations = (batch, line) pairs + latitude probes + correspondence cases; distinct = (class, position, concurrency) + latitudes"
+	batchStyleSeed = c.Seed // shape of every batch file and command line: kern_dispatch_cmdline.go
 	checkFatalFacts(c)
 	langtagCorrespondence(c)
 
@@ -281,7 +353,7 @@ func checkC11(c *vh.Ctx) {
 	for _, l := range valid {
 		c.Eval()
 		if l.SoloErr != "" {
-			c.Violate("correspondence", "harness:valid-line-fails", fmt.Sprintf("generated valid line %q fails alone: %s", l.Text(), l.SoloErr), map[string]interface{}{"projects": ps})
+			c.Violate("correspondence", "harness:valid-line-fails", fmt.Sprintf("generated valid line %q fails alone: %s [%s]", l.Text(), l.SoloErr, l.SoloHow), map[string]interface{}{"projects": ps, "solo_run": l.SoloHow})
 			return
 		}
 	}
@@ -300,7 +372,7 @@ func checkC11(c *vh.Ctx) {
 		c.Eval()
 		c.Nontrivial("solo:" + cl.Name)
 		payload := map[string]interface{}{"class": cl.Name, "batch_line": l.Text(), "project": projOf(l), "solo_outcome": l.SoloErr,
-			"how": "proj.Write the project (plus the class's file edit / parameter folder), run `hermes2go -module batch -batch <file with this one line> -workingdir <root> -concurrent 1`"}
+			"how": "proj.Write the project (plus the class's file edit / parameter folder; the weather-…-yearfile classes: c11.go editYearFile writes one weather file per year into weather/gy_<project>/ with Project.WriteWeatherLayoutTo(root, folder, 0) and removes the first 31 days / one inner day of the file of the second simulated year or deletes that file), run `hermes2go -module batch -batch <file with this one line> -workingdir <root> -concurrent 1`"}
 		if cl.Observe {
 			outcome := "reported per run: " + l.SoloErr
 			switch {
@@ -328,7 +400,11 @@ func checkC11(c *vh.Ctx) {
 			l.SoloErr = kind + " " + l.SoloErr
 			c.Count("solo:" + kind)
 		case l.SoloErr == "":
-			if cl.Reported {
+			if cl.Listed {
+				// the property names this input error and demands that it fails its run: a line that is accepted silently
+				// (and simulated with whatever the readers made of the input) is a failing input of the property
+				c.Violate("search", "input-error-not-reported:"+cl.Name, fmt.Sprintf("a line of the input-error class %s (named in the property: such an error must be reported as an error of that run) runs without any error — line %q", cl.Name, l.Text()), payload)
+			} else if cl.Reported {
 				// the model is expected to report this class as a run error (property text); on the unchanged
 				// code it does. The property says nothing about an input error that is not noticed, so this is
 				// not a failing input — but the check's reading of the code no longer holds.
@@ -352,13 +428,14 @@ func checkC11(c *vh.Ctx) {
 
 	// ---------------------------------------------------------------- mixed batches
 	type mix struct {
-		lines   []*batchLine
-		failPos []int
-		conc    int
-		class   string
-		race    bool
-		window  [2]int // -lines a-b (0,0 = none)
-		out     *batchOutcome
+		lines      []*batchLine
+		failPos    []int
+		conc       int
+		class      string
+		race       bool
+		window     [2]int // -lines a-b (0,0 = none)
+		windowForm string // "" = a-b, "N" = `-lines <b>` (a = 1), "a-end" = `-lines <a>-end` (b = number of lines)
+		out        *batchOutcome
 	}
 	var mixes []*mix
 	insert := func(base []*batchLine, l *batchLine, pos int) []*batchLine {
@@ -391,6 +468,13 @@ func checkC11(c *vh.Ctx) {
 			lo := r.Range(1, len(ls))
 			hi := r.Range(lo, len(ls))
 			m.window = [2]int{lo, hi}
+			// the other two forms of the option: `-lines N` (the first N lines), `-lines a-end`
+			switch k % 3 {
+			case 1:
+				m.window, m.windowForm = [2]int{1, hi}, "N"
+			case 2:
+				m.window, m.windowForm = [2]int{lo, len(ls)}, "a-end"
+			}
 		}
 		for i, l := range ls {
 			if l == a || l == b {
@@ -424,6 +508,12 @@ func checkC11(c *vh.Ctx) {
 		var extra []string
 		if m.window != [2]int{} {
 			extra = []string{"-lines", fmt.Sprintf("%d-%d", m.window[0], m.window[1])}
+			switch m.windowForm {
+			case "N":
+				extra[1] = strconv.Itoa(m.window[1])
+			case "a-end":
+				extra[1] = fmt.Sprintf("%d-end", m.window[0])
+			}
 		}
 		use, to := bin, 60*time.Second
 		var env []string
@@ -442,13 +532,15 @@ func checkC11(c *vh.Ctx) {
 	for _, m := range mixes {
 		o := m.out
 		c.Count("class:" + m.class)
+		countBatchShape(c, o)
 		ls := make([]string, len(m.lines))
 		for i, l := range m.lines {
 			ls[i] = l.Text()
 		}
-		payload := map[string]interface{}{"class": m.class, "batch_lines": ls, "failing_positions": m.failPos, "concurrent": m.conc, "lines_option": m.window,
+		payload := map[string]interface{}{"class": m.class, "batch_lines": ls, "failing_positions": m.failPos, "concurrent": m.conc, "lines_option": m.window, "lines_option_form": m.windowForm,
+			"command": o.Cmd, "batch_file_quoted": strconv.Quote(o.BatchText), "batch_file_shape": o.BatchShape,
 			"projects": ps, "stdout_tail": tail(o.Stdout, 1500), "stderr_tail": tail(o.Stderr, 2500),
-			"how": "proj.Write every project into one root (plus the class edits, see harness/cmd/check/c11.go c11Classes), batch file with batch_lines, `hermes2go -module batch -batch <file> -workingdir <root> -concurrent <n> [-lines a-b]`; compare sha256 of project/*/RESULT/* with the solo run of each line"}
+			"how": "proj.Write every project into one root (plus the class edits, see harness/cmd/check/c11.go c11Classes), batch file with batch_lines, start replay.command (`hermes2go -module batch -batch <file> [-workingdir <root>] -concurrent <n> [-lines a-b | N | a-end]`, options in any order) in the root; compare sha256 of project/*/RESULT/* with the solo run of each line"}
 		// the lines selected by the -lines window
 		lo, hi := 0, len(m.lines)
 		if m.window != [2]int{} {
@@ -470,7 +562,10 @@ func checkC11(c *vh.Ctx) {
 		for range selected {
 			c.Eval()
 		}
-		c.Nontrivial(fmt.Sprintf("%s|pos%v|c%d|w%v", m.class, m.failPos, m.conc, m.window))
+		c.Nontrivial(fmt.Sprintf("%s|pos%v|c%d|w%v%s", m.class, m.failPos, m.conc, m.window, m.windowForm))
+		if m.window != [2]int{} {
+			c.Count("lines-option:" + map[string]string{"": "a-b", "N": "N", "a-end": "a-end"}[m.windowForm])
+		}
 		if strings.Contains(o.Stderr, "DATA RACE") {
 			c.Violate("search", "race:"+raceSignature(o.Stderr), "data race reported in a batch with a failing line: "+raceSummary(o.Stderr), payload)
 		}
